@@ -345,12 +345,12 @@ func buildC16(cfg *mon.Config) []*mon.Sub {
 	})
 	subs = append(subs, &mon.Sub{
 		Name:          "added-symbols-through-the-whole-tokenizer",
-		Rule:          "a symbol registered by the caller on a generic or expression tokenizer (35 symbols of 1..4 characters, among them ones that start with a character another state looks at first: '-', '.', '/'; ones that contain U+FFFD, U+FFFE, a line break; prefixes and extensions of built-in symbols), with an application-defined type, is then met in a text after a bracket or a blank and before a word, a bracket, a blank or the end (symbols whose first character belongs to a word or comment in that tokenizer are left out): the whole tokenizer must deliver it as exactly one token with its text and type (the longest registered symbol wins also when the number or comment state saw its first character first), and the neighbours unchanged; enumerated",
+		Rule:          "a symbol registered by the caller on a generic or expression tokenizer (35 symbols of 1..4 characters, among them ones that start with a character another state looks at first: '-', '.', '/'; ones that contain U+FFFD, U+FFFE, a line break; prefixes and extensions of built-in symbols), with an application-defined type (in half of the cases the type Quoted, with string decoding switched on: only tokens read by the quote state are decoded), is then met in a text after a bracket or a blank and before a word, a bracket, a blank or the end (symbols whose first character belongs to a word or comment in that tokenizer are left out): the whole tokenizer must deliver it as exactly one token with its text and type (the longest registered symbol wins also when the number or comment state saw its first character first), and the neighbours unchanged; enumerated",
 		Exhaustive:    true,
 		DistinctByGen: true,
 		Floor:         200,
 		Gen: func(emit func(string)) {
-			syms := []string{"->", "-->", "-", "..", "...", ".", ".:", "-.", "/.", "/-", "/=", "/:", "//", "=>", ":=", "::", "<=>", "<<=", ">>>", "!==", "<-", "|>", "\ufffd\ufffd", "<\ufffd>", "=\ufffe", "\ufffe=", "&&", "||", "??", "?.", "~=", "^^", "**", "%%", "@@", "$("}
+			syms := []string{"->", "-->", "-", "..", "...", ".", ".:", "-.", "/.", "/-", "/=", "/:", "//", "[[", "]]", "()", "((", ",,", ";;", "$$", "%x%", "=>", ":=", "::", "<=>", "<<=", ">>>", "!==", "<-", "|>", "\ufffd\ufffd", "<\ufffd>", "=\ufffe", "\ufffe=", "&&", "||", "??", "?.", "~=", "^^", "**", "%%", "@@", "$("}
 			for _, k := range []string{"generic", "expression"} {
 				for _, sy := range syms {
 					for _, l := range []string{")", "x1 ", "7 ", "]"} {
@@ -369,12 +369,21 @@ func buildC16(cfg *mon.Config) []*mon.Sub {
 				c.Count("the symbol's first character belongs to a word or comment in this tokenizer")
 				return
 			}
+			if strings.HasSuffix(l, string(first)) {
+				c.Count("the left neighbour ends with the symbol's first character (they would merge)")
+				return
+			}
 			c.NonTrivial()
 			t := newTokenizer(kind)
 			setOptions(t, 0)
+			symType := 4321
+			if len(l)%2 == 1 { // half of the cases: the symbol is given the type Quoted and string decoding is on - it is still a symbol, read by the symbol state
+				symType = tokenizers.Quoted
+				setOptions(t, optDecodeStrings)
+			}
 			var got, tl, tr []tok
 			if p := mon.Try(func() {
-				t.SymbolState().Add(sy, 4321)
+				t.SymbolState().Add(sy, symType)
 				tl, tr = tokenizeAll(t, l), tokenizeAll(t, r)
 				got = tokenizeAll(t, l+sy+r)
 			}); p != nil {
@@ -388,9 +397,9 @@ func buildC16(cfg *mon.Config) []*mon.Sub {
 				}
 				return strings.Join(out, " ")
 			}
-			want := append(append(append([]tok{}, tl[:len(tl)-1]...), tok{Type: 4321, Value: sy}), tr...)
+			want := append(append(append([]tok{}, tl[:len(tl)-1]...), tok{Type: symType, Value: sy}), tr...)
 			if show(got) != show(want) {
-				c.Failf("a registered symbol met in a text is not delivered as the longest registered symbol with its own type", "%s tokenizer, Add(%q, 4321), text %q: got %s, want %s", kind, sy, l+sy+r, show(got), show(want))
+				c.Failf("a registered symbol met in a text is not delivered as the longest registered symbol with its own type", "%s tokenizer, Add(%q, %d), text %q: got %s, want %s", kind, sy, symType, l+sy+r, show(got), show(want))
 			}
 		},
 	})
